@@ -892,8 +892,13 @@ class Geodesic(PointPair, Subspace):
             A `Geodesic` fixed by the given isometry.
 
     """
-        if reflection.dimension != 2:
-            raise GeometryError("Creating segment from reflection expects dimension 2, got dimension {}".format(reflection.dimension))
+        try:
+            dimension = reflection.dimension
+        except AttributeError:
+            dimension = np.asarray(reflection).shape[-1] - 1
+
+        if dimension != 2:
+            raise GeometryError("Creating segment from reflection expects dimension 2, got dimension {}".format(dimension))
 
         hyperplane = Hyperplane.from_reflection(reflection)
         pt1 = hyperplane.ideal_basis[..., 0, :]
@@ -1180,14 +1185,21 @@ class Hyperplane(Subspace):
         try:
             matrix = reflection.matrix.swapaxes(-1, -2)
         except AttributeError:
-            matrix = reflection
+            #an array is read like Isometry(array): acting on row vectors
+            matrix = np.asarray(reflection).swapaxes(-1, -2)
+
+        #M and -M are the same isometry: use the representative with
+        #positive trace (a reflection of H^n has trace n - 1)
+        trace = np.trace(matrix, axis1=-2, axis2=-1)
+        matrix = matrix * np.expand_dims(np.where(trace < 0, -1, 1),
+                                         axis=(-1, -2))
 
         # TODO: make this compatible with sage
 
         #numpy's eig expects a matrix operating on the left
         evals, evecs = np.linalg.eig(matrix)
 
-        dimension = reflection.dimension
+        dimension = matrix.shape[-1] - 1
 
         #we expect a reflection to have eigenvalues [-1, 1, ...]
         expected_evals = np.ones(dimension + 1)
